@@ -37,14 +37,39 @@ def _poly_ml(rng, p, nv):
     return [rf_uniform(rng, p) for _ in range(n)], shape
 
 
-def _poly_pst13(rng, p, nv, deg):
+def _all_monomials(nv, deg):
+    out = []
+
+    def rec(v, left, cur):
+        if v == nv:
+            out.append(tuple((i, e) for i, e in enumerate(cur) if e))
+            return
+        for e in range(left + 1):
+            rec(v + 1, left - e, cur + [e])
+    rec(0, deg, [])
+    return out
+
+
+def _poly_pst13(rng, p, nv, deg, dense_ok=False):
     """sparse multivariate: tokens (coeff k (var pow){k})*, total degree <= deg; mixed monomials"""
-    shape = rng.choice(["mixed", "mixed", "zero", "const", "univariate_sum", "single"])
+    shape = rng.choice(["mixed", "mixed", "zero", "const", "univariate_sum", "single"] + (["dense", "dense", "mixed", "topdeg"] if dense_ok else []))
     terms = {}
+    if shape == "dense":
+        for mon in _all_monomials(nv, deg):
+            terms[mon] = rf_uniform(rng, p)
+    if shape == "topdeg":       # mixed monomials of exactly the supported degree
+        for _ in range(rng.randint(1, 5)):
+            exps = {}
+            for _ in range(deg):
+                v = rng.randrange(nv)
+                exps[v] = exps.get(v, 0) + 1
+            terms[tuple(sorted(exps.items()))] = rf_uniform(rng, p)
     if shape == "zero":
         return [], shape
     if shape == "const":
         terms[()] = rf_uniform(rng, p)
+    elif shape in ("dense", "topdeg"):
+        pass
     else:
         nt = 1 if shape == "single" else rng.randint(1, 6)
         for _ in range(nt):
@@ -118,7 +143,11 @@ def make_case(rng, cid, scheme, tier, opts=None):
     elif scheme == "pst13":
         num_vars = rng.randint(1, 4 if big else 3)
         D = rng.randint(1, 4 if big else 3)
+        if opts.get("pst_grid"):        # the grid of C15
+            num_vars, D = opts["pst_grid"]
         s = rng.randint(1, D)
+        if opts.get("pst_grid") and rng.random() < 0.5:
+            s = D
         sh = rng.randint(1, 2)
     elif scheme == "hyrax":
         num_vars = rng.choice([2, 4, 6] if big else [2, 4])
@@ -157,7 +186,7 @@ def make_case(rng, cid, scheme, tier, opts=None):
         elif scheme in MULTILINEAR:
             coeffs, shape = _poly_ml(rng, p, num_vars)
         else:
-            coeffs, shape = _poly_pst13(rng, p, num_vars, s)
+            coeffs, shape = _poly_pst13(rng, p, num_vars, s, dense_ok=bool(opts.get("pst_grid")))
         if scheme == "hyrax":
             hiding = "none"
         elif scheme in HIDING and opts.get("hiding", True) and rng.random() < opts.get("hiding_p", 0.6):
@@ -573,10 +602,17 @@ def gen(rng, tier, profile, count, schemes=ALL):
         schemes = ("marlin", "sonic", "ipa")
     if profile == "c07":
         schemes = HIDING
+    if profile == "c15":
+        schemes = ("pst13",)
     for k in range(count):
         scheme = schemes[k % len(schemes)]
         cid = "%s-%s-%d" % (profile, scheme, k)
-        c = make_case(rng, cid, scheme, tier, {"hiding_p": 0.85, "bound_p": 0.8, "sh_max": 6} if profile == "c07" else None)
+        opts = {"hiding_p": 0.85, "bound_p": 0.8, "sh_max": 6} if profile == "c07" else None
+        if profile == "c15":
+            gmax = 6 if tier != "quick" else 4
+            grid = [(a, b) for a in range(1, gmax + 1) for b in range(1, gmax + 1)]
+            opts = {"pst_grid": grid[k % len(grid)] if tier != "quick" else rng.choice(grid), "hiding_p": 0.5, "n": rng.randint(1, 2)}
+        c = make_case(rng, cid, scheme, tier, opts)
         if profile == "c04" and rng.random() < 0.3:
             inject_bound_violation(rng, c)
         if profile == "c17" and scheme in ("marlin", "sonic", "ipa") and rng.random() < 0.5:
@@ -597,6 +633,6 @@ def gen(rng, tier, profile, count, schemes=ALL):
             add_history(rng, c, kinds=("single", "batch", "lc"), nops=3, lc_opts={"shared_values": False})
         else:
             add_history(rng, c, kinds=("single", "batch"))
-        add_mutations(rng, c, profile)
+        add_mutations(rng, c, "c02" if profile == "c15" else profile)
         cases.append(c)
     return cases
